@@ -396,7 +396,7 @@ fn c15_minimise(replay: &Json) -> Json {
 }
 
 fn c15_tier_runs(tier: &str) -> u64 {
-    let base = if tier == "thorough" { 3_000_000 } else { 24_000 };
+    let base = if tier == "thorough" { 1_200_000 } else { 24_000 };
     match std::env::var("VERIF_RUNS") {
         Ok(s) => s.parse().unwrap_or(base),
         Err(_) => base,
